@@ -502,7 +502,7 @@ def drain_loop_check(func, pop_ev):
     null_edges = set()
     for b in func.blocks.values():
         t = b.term
-        if t and t.get("k") == "if" and (t.get("core") or {}).get("root") == var and not t.get("cmp"):
+        if t and t.get("k") in ("if", "while", "for", "do") and (t.get("core") or {}).get("root") == var and not t.get("cmp"):
             null_edges.add((b.id, 0 if t.get("neg") else 1))
 
     def edge2(st, blk, k, succ):
@@ -744,3 +744,125 @@ class StrictProgress(object):
 
         cfg.run_automaton(func, (None, frozenset(), False, None), step, edge=edge, start=hdr)
         return sorted(set(stuck), key=lambda x: (x[1] or 0, x[0]))
+
+
+# ---------- comparisons, normalised on an edge ----------
+
+_NEG = {"<": ">=", ">=": "<", ">": "<=", "<=": ">", "==": "!=", "!=": "=="}
+_SWAP = {"<": ">", ">": "<", "<=": ">=", ">=": "<=", "==": "==", "!=": "!="}
+
+
+def rel_on_edge(term, k):
+    """(lhs, rel, rhs) that holds when successor edge k of a two-way terminator with a comparison is taken, else None.
+    lhs/rhs are the extractor's operand refs.  `if (a < b)` edge 1 gives (a, '>=', b); `if (!(a == b))` edge 0 gives (a, '!=', b)."""
+    if not term or term.get("cmp") not in _NEG:
+        return None
+    truth = (k == 0) != bool(term.get("neg"))
+    rel = term["cmp"] if truth else _NEG[term["cmp"]]
+    return (term.get("lhs") or {}, rel, term.get("rhs") or {})
+
+
+def edge_establishes(term, k, var, rels_when_left, rhs_pred=None):
+    """edge k establishes  var <rel> X  (rel in rels_when_left, X satisfying rhs_pred), written either way round"""
+    r = rel_on_edge(term, k)
+    if r is None:
+        return False
+    lhs, rel, rhs = r
+    if lhs.get("v") == var and rel in rels_when_left and (rhs_pred is None or rhs_pred(rhs)):
+        return True
+    if rhs.get("v") == var and _SWAP[rel] in rels_when_left and (rhs_pred is None or rhs_pred(lhs)):
+        return True
+    return False
+
+
+# ---------- "every X is followed by Y", across helpers ----------
+
+def region(prog, root, within=None, depth=4):
+    """root, its lambdas, and the program-defined functions it (transitively, up to depth) calls that satisfy within(g)."""
+    out = []
+    seen = set()
+    work = [(root, 0)]
+    while work:
+        f, d = work.pop()
+        if f.id in seen:
+            continue
+        seen.add(f.id)
+        out.append(f)
+        for lf in prog.lambdas_in(f):
+            work.append((lf, d))
+        if d >= depth:
+            continue
+        for ev in f.events("call"):
+            for g in prog.resolve_call(ev):
+                if g.blocks and g.id not in seen and (within is None or within(g)):
+                    work.append((g, d + 1))
+    return out
+
+
+def followed_by(prog, summ, root, is_ev, must, key, within=None):
+    """In root and the helpers it calls: every event satisfying is_ev is followed, on every non-throwing path to the end of the
+    function or to the next loop iteration, by an event satisfying must (directly or through a callee that always does it).
+    When a helper leaves with the obligation open, the obligation moves to the call sites of the helper inside the region.
+    Returns (sites, failures): sites = number of original is_ev events found, failures = [(func, event, why)]."""
+    lifted = summ.lift_must(must, key)
+    reg = region(prog, root, within)
+    open_memo = {}
+
+    def open_after(f, ev):
+        """True when some path after ev reaches f's exit / a loop head without `must`"""
+        heads = {h for h, _b in cfg.natural_loops(f)}
+        miss = []
+
+        def step(st, e2):
+            return None if lifted(e2) else st
+
+        def edge(st, blk, k, succ):
+            if succ in heads:
+                miss.append(blk.id)
+                return None
+            return st
+        exits, _ = cfg.run_automaton(f, 0, step, edge=edge, start=ev.block, start_idx=ev.idx + 1)
+        return bool(miss) or any(x.kind != "throw" for x in exits)
+
+    def leaves_open(g, stack=()):
+        """some is_ev inside g (or deeper) is still open when g returns"""
+        if g.id in open_memo:
+            return open_memo[g.id]
+        if g.id in stack:
+            return False
+        open_memo[g.id] = False
+        res = False
+        for ev in g.events():
+            if is_ev(ev) and open_after(g, ev):
+                res = True
+            elif ev["k"] == "call":
+                for h in prog.resolve_call(ev):
+                    if h.blocks and any(h.id == r.id for r in reg) and h.id != g.id and leaves_open(h, stack + (g.id,)) and open_after(g, ev):
+                        res = True
+        open_memo[g.id] = res
+        return res
+
+    sites = sum(1 for f in reg for ev in f.events() if is_ev(ev))
+    failures = []
+    if leaves_open(root):
+        # name the innermost open site for the report
+        for f in reg:
+            for ev in f.events():
+                if is_ev(ev) and open_after(f, ev):
+                    failures.append((f, ev, "open at the end of %s" % f.base))
+        if not failures:
+            failures.append((root, None, "open after a helper call"))
+    return sites, failures
+
+
+def only_reached_from(prog, f, roots, depth=4, _stack=()):
+    """f is one of `roots` (base names), a lambda written inside one, or a helper every call site of which lies in such a function"""
+    f = prog.owner(f)
+    if f.base in roots:
+        return True
+    if depth <= 0 or f.id in _stack:
+        return False
+    sites = prog.call_sites(f.base)
+    if not sites:
+        return False
+    return all(only_reached_from(prog, s.func, roots, depth - 1, _stack + (f.id,)) for s in sites)
